@@ -320,6 +320,7 @@ def concrete_run(mod, cfg, inputs):
 _PROFILED = {}
 
 
+_KNOWN = None
 _STOP = None  # multiprocessing.Value: number of reproduced violations found so far (all workers)
 
 
@@ -331,7 +332,7 @@ def _init_pool(v):
 def process_config(args):
     modname, cfg, tier, opts = args
     t_start = time.time()
-    if _STOP is not None and _STOP.value >= opts.get("stop_after", 12):
+    if _STOP is not None and _STOP.value >= int(os.environ.get("SVX_STOP_AFTER", opts.get("stop_after", 12))):
         return dict(key=cfg["key"], h=cfg["h"], skipped=True)
     mod = importlib.import_module(modname)
     res = dict(
@@ -474,7 +475,11 @@ def process_config(args):
     res["wall"] = time.time() - t_start
     res["cfg"] = cfg
     if _STOP is not None:
-        n = sum(1 for v in res["violations"] if v.get("reproduced"))
+        global _KNOWN
+        if _KNOWN is None:
+            _KNOWN = load_known()
+        prop = modname.split(".")[-1].upper()
+        n = sum(1 for v in res["violations"] if v.get("reproduced") and match_known(_KNOWN, prop, cfg["h"], cfg["key"], v["ob"]) is None)
         if n:
             with _STOP.get_lock():
                 _STOP.value += n
